@@ -245,6 +245,9 @@ func alignWindowStart(timestamp time.Time, windowSize time.Duration) time.Time {
 	// Align to window boundary (downward alignment)
 	// This creates consistent window boundaries aligned to epoch
 	alignedNano := (unixNano / windowSizeNano) * windowSizeNano
+	if alignedNano > unixNano { // Go division truncates toward zero: a timestamp before 1970 must align downward too
+		alignedNano -= windowSizeNano
+	}
 
 	// Convert back to time.Time
 	return time.Unix(0, alignedNano).UTC()
